@@ -149,8 +149,6 @@ impl TransactionManager {
         #[cfg(grafeo_verif)]
         grafeo_common::verif::yield_point("tx.begin.load");
         let epoch = EpochId::new(self.current_epoch.load(Ordering::Acquire));
-        #[cfg(grafeo_verif)]
-        grafeo_common::verif::yield_point("tx.begin.insert");
 
         let info = TxInfo::new(epoch, isolation_level);
         self.transactions.write().insert(tx_id, info);
